@@ -59,6 +59,8 @@ def make_case(rng, tier):
     names = sorted(S.variables(t))
     if pts is None:
         pts = [G.rand_point(rng, names, int_prob=0.5, extra=0.1) for _ in range(3)]
+        if rng.random() < 0.3:
+            pts += G.collision_twins(rng, names)
     # integer-typed, zero and missing coordinates
     if names:
         p = dict(pts[0]); p[names[0]] = rng.choice([0, 1, -1, 2, -3]); pts.append(p)
